@@ -68,6 +68,9 @@ MechDataInCache  == [ MechObserved EXCEPT !.gdfDataInto = "cached_frame" ]      
 MechLineAliased  == [ MechObserved EXCEPT !.lineReturned = "cached_object" ]     \* before fe3231b0
 MechSideLast     == [ MechObserved EXCEPT !.sideTables = "last_compute" ]        \* before 0313f2af
 MechKeyNoProject == [ MechObserved EXCEPT !.gdfCmp = {"pe", "proj", "eng"} ]     \* before 3e766f04
+\* every repaired choice at once: used only to RANK generated histories (which ones any past mechanism broke)
+MechHistoric == [ MechObserved EXCEPT !.lineStore = {"pe"}, !.gdfDataInto = "cached_frame", !.lineReturned = "cached_object",
+                                      !.sideTables = "last_compute", !.gdfCmp = {"pe", "proj", "eng"} ]
 \* single knobs turned to their intended value (used to explain a failure)
 Knobs == {"gdfCmp", "gdfReturned", "gdfDataInto", "sideTables", "lineReturned"}
 Flip(M, kn) == [ M EXCEPT ![kn] = MechIntended[kn] ]
